@@ -167,6 +167,40 @@ def bytes_summaries():
                 outs.append((s, Unit()))
         return outs
 
+    @reg(r'^Vec::<u8>::splice::<(std::ops::)?Range<usize>, Vec<u8>>$')
+    def v_splice(ex, st, fn, argv):
+        """replace the bytes [a, b) by the contents of another vector: items behind the range move, items the range cuts into are damaged"""
+        rng = argv[1]
+        outs = []
+        for (s, c, bad) in ex.fork_on(st, z3.Or(z3.UGT(rng.fields[0].bv, rng.fields[1].bv), z3.UGT(rng.fields[1].bv, as_bytes(ex, st, argv[0]).len)), (argv[0], rng, argv[2])):
+            if bad:
+                outs.append((s, Panic('range out of bounds (Vec::splice)')))
+                continue
+            vv, r_, rep = as_bytes(ex, s, c[0]), c[1], as_bytes(ex, s, c[2])
+            a_, b_ = r_.fields[0].bv, r_.fields[1].bv
+            delta = rep.len - (b_ - a_)
+            items = []
+            for it in vv.items:
+                rel = it['pos'] - vv.abs
+                before, after = z3.ULE(rel + it['len'], a_), z3.UGE(rel, b_)
+                it2 = dict(it)
+                intact = z3.simplify(z3.Or(before, after))
+                if z3.is_false(intact) or not ex.feasible(s, intact):
+                    it2['kind'] = 'damaged:' + str(it.get('kind'))
+                elif not z3.is_true(intact) and ex.feasible(s, z3.Not(intact)):
+                    raise Unsupported('Vec::splice that may or may not cut into an earlier item')
+                it2['pos'] = z3.If(z3.And(after, z3.Not(z3.And(before, it['len'] == 0))), it['pos'] + delta, it['pos'])
+                items.append(it2)
+            for it in rep.items:
+                it2 = dict(it)
+                it2['pos'] = vv.abs + a_ + (it['pos'] - rep.abs)
+                items.append(it2)
+            vv.items = sorted(items, key=lambda i_: 0) if False else items
+            vv.len = vv.len + delta
+            rep.items, rep.len = [], b64(0)
+            outs.append((s, Unit()))
+        return outs
+
     @reg(r'^Vec::<u8>::split_off$')
     def v_split_off(ex, st, fn, argv):
         v = as_bytes(ex, st, argv[0])
